@@ -75,6 +75,8 @@ func (h *Handler6) spoofLoop(dstAddr packet.Addr) {
 			return
 		}
 
+		wakeup := h.closeChan // replaced by ProcessPacket on each RA: read it with the lock held
+
 		// Attack when we have the router LLA only
 		if h.Router != nil {
 			list := []packet.Addr{}
@@ -126,7 +128,7 @@ func (h *Handler6) spoofLoop(dstAddr packet.Addr) {
 		}
 
 		select {
-		case <-h.closeChan:
+		case <-wakeup:
 			// icmp6 spoof goroutines wait on this channel to receive
 			// notifications of new Router Advertisements send by the lan router.
 			//
